@@ -258,9 +258,12 @@ func VF_C20_T2() { historyD(2, false, false, true) }
 func VF_C20_T3() { historyD(3, false, false, true) }
 
 // a table that grows a second page: three committed 1.5 KB rows, then one more transaction, then the crash
+var growDepth2 = false
+
 func grow(onlyAfterLastCommit bool) {
 	w := open(50)
 	w.big = true
+	w.depth2 = growDepth2
 	tm := w.r.Shi.GetTransactionManager()
 	for i := 0; i < 2; i++ {
 		t := tm.Begin(nil)
@@ -319,6 +322,39 @@ func VF_C20_Reopened2() { reopened(2, false, true) }
 // the same with a skip-list index on t1.tag: its pages sit between the table's first and second heap page,
 // are never written before the crash and are rebuilt (newly allocated) by the restart
 func VF_C01_GrowIdx() {
+	tagIndex = index_constants.IndexKindSkipList
+	grow(true)
+}
+
+// the table grows a second page (logged, not written), then another table is created: its first page is
+// flushed at creation and lies behind the unwritten one, which is a hole of zero bytes in the db file
+func VF_C01_GrowThenCreate() {
+	w := open(50)
+	w.big = true
+	tm := w.r.Shi.GetTransactionManager()
+	for i := 0; i < 3; i++ {
+		t := tm.Begin(nil)
+		v := vf.I32()
+		w.r.Exec(sysx.Insert("t1", []string{"tag", "v", "s"}, []types.Value{types.NewInteger(w.nextTag), types.NewInteger(v), types.NewVarchar(bigStr)}), t)
+		start := vf.FsTraceLen()
+		tm.Commit(w.r.Cat, t)
+		w.cur = w.cur.clone()
+		w.cur[w.nextTag] = v
+		w.nextTag++
+		w.commits = append(w.commits, commitRec{start, vf.FsTraceLen(), w.cur})
+	}
+	w.r.CreateTable("t2", []sysx.ColDef{{"x", types.Integer, index_constants.IndexKindInvalid}})
+	vf.Cover("c01.grow-then-create")
+	w.crashAndCheck(true)
+}
+
+// C20 on the growing table: the recovery which re-creates the unwritten page is itself interrupted at every point
+func VF_C20_Grow() {
+	growDepth2 = true
+	grow(true)
+}
+func VF_C20_GrowIdx() {
+	growDepth2 = true
 	tagIndex = index_constants.IndexKindSkipList
 	grow(true)
 }
